@@ -53,7 +53,9 @@ PostOK(p) ==
        /\ DOMAIN pingC'[n] \ hist'.tests = Range(p.pingC[n])
        /\ DOMAIN pingC'[n] \cap hist'.tests = Range(p.testC[n])
        \* every outside socket the node ever opened and has not closed belongs to a live exit entry
-       /\ p.transports_open[n] = 2 * Cardinality({c \in DOMAIN exit'[n] : exit'[n][c].open})
+       \* (an open exit entry owns two outside sockets, or one while the second is still being opened - Transport4Ready)
+       /\ p.transports_open[n] <= 2 * Cardinality({c \in DOMAIN exit'[n] : exit'[n][c].open})
+       /\ p.transports_open[n] >= Cardinality({c \in DOMAIN exit'[n] : exit'[n][c].open})
   /\ PNet = LNet(p)
   /\ hist'.exitLog = Range(p.exitLog)
   /\ hist'.origLog = Range(p.origLog)
@@ -68,6 +70,7 @@ Step(e) ==
     [] e.a = "SendTest"      -> SendTest(e.o, e.cid)
     [] e.a = "RPForge"       -> RPForge(e.rp, e.cid)
     [] e.a = "TransportsReady" -> TransportsReady(e.n, e.cid)
+    [] e.a = "Transport4Ready" -> Transport4Ready(e.n, e.cid)
     [] e.a = "Deliver"       -> \E d \in net : d.id = e.id /\ Deliver(d)
     [] e.a = "Lose"          -> \E d \in net : d.id = e.id /\ Lose(d)
     [] e.a = "Dup"           -> \E d \in net : d.id = e.id /\ Dup(d)
